@@ -432,6 +432,12 @@ func mgmtExec(t *testing.T, w *traceWriter, conf mgConf, next func(e int) *mgCmd
 				f.Close()
 				synctest.Wait()
 			}
+			for id := uint64(max(1, int(fL.id)-4)); id <= fL.id+8; id++ { // (not relying on the listing alone: the management face precedes the requesters)
+				if f := face.FaceTable.Get(id); f != nil {
+					f.Close()
+					synctest.Wait()
+				}
+			}
 			for _, f := range allFaces { // faces destroyed by command are out of the table but their goroutines still run
 				f.Close()
 				synctest.Wait()
